@@ -25,6 +25,28 @@ pub fn find_start_marker(
     crate::compiler::lexer::verif_find_start_marker(source, offset, syntax)
 }
 
+/// C10: every overlapping match the start delimiter automaton of a custom syntax reports on
+/// `source[offset..]`, in the order in which the tokenizer's loop receives them: (start, end,
+/// pattern index) with offsets relative to `offset`, and the automaton's `max_pattern_len`.
+/// `None` for the default syntax, which has no automaton.
+#[cfg(feature = "custom_syntax")]
+pub fn start_marker_matches(
+    source: &str,
+    offset: usize,
+    syntax: &crate::syntax::SyntaxConfig,
+) -> Option<(Vec<(usize, usize, usize)>, usize)> {
+    crate::compiler::lexer::verif_start_marker_matches(source, offset, syntax)
+}
+
+/// C10: the identifier scan of the tokenizer (`compiler::lexer::lex_identifier`): length in bytes
+/// of the identifier `s` starts with; `unicode` tells which of its two forms was compiled.
+pub fn lex_identifier(s: &str) -> usize {
+    crate::compiler::lexer::verif_lex_identifier(s)
+}
+
+/// C10: whether the tokenizer was compiled with the `unicode` feature.
+pub const UNICODE_IDENTIFIERS: bool = cfg!(feature = "unicode");
+
 /// C11: thread-local high-water marks of nested interpreter activations
 /// (`Executor::eval_impl`) and of `Context::depth()`, plus the stack pointer
 /// at the outermost and at the deepest activation.
